@@ -8,6 +8,7 @@ use verif_harness::*;
 fn run(q: &str) -> String {
     let d = LightDataset::new();
     let parsed = match SparqlQuery::<LightDataset>::parse(q) { Ok(p) => p, Err(e) => return format!("PARSE {e}") };
+    if std::env::var("DEBUGQ").is_ok() { println!("{parsed:?}"); }
     let r = std::panic::catch_unwind(std::panic::AssertUnwindSafe(|| {
         match SparqlWrapper(&d).query(&parsed) {
             Err(e) => format!("ERR {e}"),
